@@ -55,6 +55,16 @@ def run(ctx):
 
         def failcmp(op, A, B, truth):
             return False
+        # the failure counter: result of `.filter(|r| r.is_err()).count()` over the archive results
+        err_counts = set()
+        for c in b.find_calls(r"Iterator>::count$"):
+            for l in b.origins(c.args[0], transparent=NEXT_TRANSPARENT):
+                if l[0] == "call" and "filter" in l[1]:
+                    fc = b.call_at(l[2])
+                    for o in fc.args:
+                        for ll in b.origins(o):
+                            if ll[0] == "agg" and ll[1].startswith("closure:") and F.fn_exact(ll[1].split(":", 1)[1]).find_calls(r"Result::is_err$"):
+                                err_counts |= {x for x, _ in b.flow_forward(c.dest)}
         # the failure guard: Gt(failure_count, 0) false edge
         fsw = []
         for i in b.live_blocks():
@@ -64,7 +74,7 @@ def run(ctx):
             d = si.get("def") if si and si["kind"] == "bool" else None
             if d and d.get("r") == "bin" and d["op"] in ("Gt", "Ne", "Ge", "Eq", "Lt"):
                 A = b.origins(d["a"])
-                if any(l[0] == "call" and norm_path(l[1]).endswith("Iterator>::count") for l in A) and any(b.local_name(x) == "failure_count" for x in b._origin_locals(d["a"])):
+                if any(l[0] == "call" and norm_path(l[1]).endswith("Iterator>::count") for l in A) and (b._origin_locals(d["a"]) & err_counts):
                     zero = (d["b"].get("k") or "").startswith("0_")
                     if d["op"] in ("Gt", "Ne") and zero:
                         fsw.append((i, si["false"]))
@@ -79,7 +89,7 @@ def run(ctx):
         cnts = [c for c in b.find_calls(r"Iterator>::count$")]
         ok_f = False
         for c in cnts:
-            if any(b.local_name(x) == "failure_count" for x in b.flow_forward(c.dest) and [l for l, _ in b.flow_forward(c.dest)]):
+            if {x for x, _ in b.flow_forward(c.dest)} & err_counts:
                 L = b.origins(c.args[0], transparent=NEXT_TRANSPARENT)
                 # the filter closure calls is_err
                 for l in L:
